@@ -179,8 +179,12 @@ func VH_case(a []string) {
 		if !strings.HasSuffix(id, "+") {
 			// the id part is byte-identical to the list entry, and nothing but '+' / WITH follows it
 			vAssert(strings.HasPrefix(l[0], id), "canonical-spelling")
+			// ("X+" with X-or-later listed is reported as "X-or-later+": documented normalisation)
 			rest := l[0][len(id):]
-			vAssert(rest == "" || rest == "+" || strings.HasPrefix(rest, " WITH ") || strings.HasPrefix(rest, "+ WITH "), "canonical-spelling")
+			if i := strings.Index(rest, " WITH "); i >= 0 {
+				rest = rest[:i]
+			}
+			vAssert(rest == "" || rest == "+" || rest == "-or-later+", "canonical-spelling")
 		}
 	}
 	r, err2 := Satisfies(text, []string{canon})
